@@ -3,11 +3,14 @@ from vlib.core import core_check
 
 OPTS = [dict(), dict(p_alias=0.6, p_nonexcl=0.4), dict(p_nested=0.35), dict(sched='rr', nested=False, rdep_rel=False),
         # constant enable_call values (elaboration-time flags: False / 0 / C(0) / True / C(1))
-        dict(p_constenable=0.4, p_enable=0.3)]
+        dict(p_constenable=0.4, p_enable=0.3),
+        # the same grammar built through the sugar API: Methods vectors, @def_methods over groups of sibling bodies
+        # (ready per index), Methods.provide / Methods.__call__ aliases
+        dict(p_sugar=1.0, sugar_mode="vec", max_m=6, max_t=3, p_struct=0.2, p_body_in_struct=0.0, p_validate=0.05, p_nonexcl=0.1, p_nested=0.3, p_alias=0.4)]
 
 
 def run(rep):
-    core_check(rep, "C04", [dict(o) for o in OPTS], 80, 2000, nontrivial_key="impl_designs_built")
+    core_check(rep, "C04", [dict(o) for o in OPTS], 96, 2400, nontrivial_key="impl_designs_built")
     rep.coverage["rule"] = ("random designs from vlib/coregen.py's grammar built with the real API, every valuation of the "
                             "control inputs (or random ones when there are many), both directions bound by TxnCoreTrace; "
                             "clauses MethodRunIffActiveSite, NestedRunsOnlyWithParent, SiteWitnessMatches; distinct_nontrivial = built designs")
